@@ -1,0 +1,8 @@
+//go:build verif
+
+package phase3
+
+import "github.com/nulab/autog/internal/graph"
+
+// VerifCrossings runs the crossing counter of the ordering phase on the layers of g as they are
+func VerifCrossings(g *graph.DGraph) int { return crossings(g.Layers) }
